@@ -2833,6 +2833,7 @@ echs_evical_pull(ical_parser_t p[static 1U])
 	/* the end of a calendar (or something we cannot make sense of)
 	 * resets the globals, what follows in this buffer is treated just
 	 * like what follows in later buffers: as a new calendar */
+again:
 	while (UNLIKELY((ve = _ical_pull(*p)) == ICAL_EOP)) {
 		struct ical_parser_s *_p = *p;
 
@@ -2876,6 +2877,13 @@ echs_evical_pull(ical_parser_t p[static 1U])
 		case METH_COUNTER:
 		case METH_DECLINECOUNTER:
 			break;
+		}
+		if (UNLIKELY(i.v == INSVERB_UNK)) {
+			/* nothing to act upon, and callers take the unknown verb
+			 * for `need more data', so go on with the rest of the
+			 * buffer like we would if it came in a later buffer */
+			i = (echs_instruc_t){INSVERB_UNK};
+			goto again;
 		}
 	}
 	return i;
